@@ -482,6 +482,8 @@ class SymbolTrace:
         j = m0[1] if isinstance(m0, list) and len(m0) == 2 and m0[0] == 'M0' else None
         sym['matrix_size'] = tuple(mk[j - 1][1][:2]) if j is not None and 0 < j <= len(mk) else None
         on_m1 = [c for c in calls if c[1] and c[1][0] == matrix and c[0] in ('add_format_info', 'add_version_info')]
+        # version information written before masking is on the matrix that is then masked (its area is not part of the encoding region)
+        on_m1 += [c for c in on_m0 if c[0] == 'add_version_info']
         for c in on_m1:
             if c[0] == 'add_format_info':
                 sym['format'] = dict(version=c[1][1] if len(c[1]) > 1 else None, error=c[1][2] if len(c[1]) > 2 else None, mask=c[1][3] if len(c[1]) > 3 else None)
